@@ -28,7 +28,7 @@ def replay_kind(out, kind, jumpi):
     if kind in BAD_JUMP:
         judge = lambda d: (not d.get("permissive_ok", True)) or (d.get("strict_ok", False) and kind != "NoConcreteJumpDestination")
     else:
-        judge = lambda d: d.get("permissive_ok", False) or d.get("strict_ok", False)
+        judge = lambda d: d.get("permissive_ok", False) or d.get("strict_ok", False) or d.get("gas_location_wrong", False)
         if kind == "GasLimitExceeded":
             for variant_ in (0, 1):
                 c0, r0 = native.scenario(out, "error_kind", {"kind": kind, "jumpi": variant_}, judge=judge)
